@@ -73,6 +73,10 @@ def simulate(an, f, path, in_smartlist):
     me = f.params[0] if f.params else "self"
     pending_add = []
     for node, edge in path:
+        if edge == "exc":
+            # the exception is raised *by* this node: under the atomicity of the callees (C06) the raising call had no effect,
+            # and a store after it in the same statement did not happen
+            continue
         for ev in tree_events(an, f, node):
             k = ev["kind"]
             if ev.get("obj_ast") is not None:
@@ -120,6 +124,37 @@ def simulate(an, f, path, in_smartlist):
                 st.listed[ev["obj"]] = set([ev["owner"]])
                 st.ptr[ev["obj"]] = ev["owner"]
     return st
+
+
+def _dead_exception_path(R, f, path):
+    """a path that leaves a node by its exception edge although nothing evaluated there can raise (explicit raises and the raise
+    summaries of the callees, after discharge): e.g. the plain store `x._parent = self`."""
+    from ..events import node_events
+    evaluated = set()        # subscript expressions that were evaluated without raising earlier on this path
+    for node, edge in path:
+        evs = list(node_events(node))
+        if edge != "exc" or node.kind == "raise":
+            for ev in evs:
+                if ev["kind"] == "load_sub":
+                    evaluated.add(unparse(ev["ast"]))
+                if ev["kind"] in ("store_sub", "del_sub") or (ev["kind"] == "call" and isinstance(ev["ast"].func, ast.Attribute)
+                                                             and ev["ast"].func.attr in ("append", "insert", "remove", "extend", "pop", "clear", "__setitem__")):
+                    evaluated.clear()
+            continue
+        live = False
+        for ev in evs:
+            if ev["kind"] == "load_sub" and unparse(ev["ast"]) in evaluated:
+                continue      # the same lookup succeeded earlier on this path and nothing was added or removed since
+            try:
+                if R.event_raises(f, node, ev):
+                    live = True
+                    break
+            except Exception:
+                live = True
+                break
+        if not live:
+            return True
+    return False
 
 
 def smartlist_detach_guard_ok(an, f):
@@ -239,6 +274,8 @@ def run(prog, rep):
                       "no path condition establishing that it has no parent) the function must detach or refuse; SmartList.__setitem__'s "
                       "detaching branch may be skipped only when the value has no parent")
     n_paths = 0
+    from ..raises import Raises
+    RZ = Raises(an)
     for qn, (f, evs) in sorted(per_func_events.items()):
         if f.short in PRIMITIVES:
             continue
@@ -247,7 +284,8 @@ def run(prog, rep):
         rep.saw_function(f)
         g = S.cfg(f)
         in_sl = f.cls is not None and f.cls.name == "SmartList"
-        paths = [p for p in g.paths(loop_bound=1) if p[-1][0].kind == "exit" and not infeasible(an, f, p)]
+        paths = [p for p in g.paths(loop_bound=1) if p[-1][0].kind in ("exit", "raise_exit") and not infeasible(an, f, p)
+                 and not _dead_exception_path(RZ, f, p)]
         n_paths += len(paths)
         fresh = fresh_vars(an, f)
         worst = {}
